@@ -178,7 +178,8 @@ fn mutate_within(rng: &mut Rng, line: &str, lo: usize, hi: usize) -> String {
     format!("{}{}{}", &line[..lo], out.iter().collect::<String>(), &line[hi..])
 }
 
-pub fn generate(rng: &mut Rng, idx: usize, _tier: Tier, with_globs: bool, rules: bool) -> CaseOut {
+pub fn generate(rng: &mut Rng, idx: usize, tier: Tier, with_globs: bool, rules: bool) -> CaseOut {
+    let real_git = idx % 10 == 3 || (tier == Tier::Thorough && idx % 5 == 1);
     let nfiles = rng.range(1, 3);
     let mut names: Vec<(String, String)> = Vec::new();
     let mut specs = Vec::new();
@@ -368,6 +369,7 @@ pub fn generate(rng: &mut Rng, idx: usize, _tier: Tier, with_globs: bool, rules:
     }
     // a deleted file (ignored by blockwatch)
     let mut diff_text = String::new();
+    let _ = &mut diff_text;
     let mut order: Vec<usize> = (0..diffs.len()).collect();
     if rng.chance(1, 2) {
         order.reverse();
@@ -382,6 +384,37 @@ pub fn generate(rng: &mut Rng, idx: usize, _tier: Tier, with_globs: bool, rules:
             tags.push("deleted-file".into());
         }
         diff_text.push_str(&render_file(&diffs[*di], u, rng));
+    }
+    // every fifth case: the diff is the one git itself produces for the same pair of repository states
+    let mut git_fps: Option<Vec<(String, Vec<Footprint>, Vec<(Vec<String>, Vec<String>)>)>> = None;
+    if real_git && !diffs.is_empty() {
+        let mut old_state: Vec<(String, String)> = Vec::new();
+        let mut new_state: Vec<(String, String)> = Vec::new();
+        for gf in &files {
+            new_state.push((gf.path.clone(), gf.rendered.text.clone()));
+            match diffs.iter().find(|d| d.path == gf.path) {
+                Some(d) if d.new_file => {}
+                Some(d) => old_state.push((d.old_path.clone().unwrap_or_else(|| gf.path.clone()), join_lines(&d.old_lines, d.old_final_nl))),
+                None => old_state.push((gf.path.clone(), gf.rendered.text.clone())),
+            }
+        }
+        let variant = rng.below(4);
+        if let Some(gd) = real_git_diff(&old_state, &new_state, u, variant) {
+            if !gd.is_empty() {
+                let fp = footprints_from_diff(&gd);
+                // git's own choice of alignment decides the footprints
+                f3 = fp.iter().any(|(_, _, pairs)| pairs.iter().any(|(del, add)| del.iter().any(|l| l.starts_with("-- ")) || add.iter().any(|l| l.starts_with("++ "))));
+                diff_text = gd;
+                git_fps = Some(fp);
+                tags.push(format!("real-git:{}", ["unstaged", "staged", "commits", "commits-M"][variant]));
+                // scenario expectations were planned for the generated script; git may align differently
+                for gf in files.iter_mut() {
+                    for e in gf.expect.iter_mut() {
+                        *e = 0;
+                    }
+                }
+            }
+        }
     }
     tags.push(format!("U:{u}"));
     tags.push(format!("diff-files:{}", diffs.len()));
@@ -421,11 +454,16 @@ pub fn generate(rng: &mut Rng, idx: usize, _tier: Tier, with_globs: bool, rules:
     // char-level diffs of every (deleted, added) pair within a group
     let mut cd: Vec<String> = Vec::new();
     let mut seen = std::collections::BTreeSet::new();
-    for d in &diffs {
-        for g in &d.groups {
-            for del in &g.deleted {
-                for k in 0..g.added {
-                    let new = &d.new_lines[g.t - 1 + k];
+    // (deleted, added) line pairs of every change group, from git's diff when it is the input
+    let pair_groups: Vec<(Vec<String>, Vec<String>)> = match &git_fps {
+        Some(fp) => fp.iter().flat_map(|(_, _, pairs)| pairs.iter().cloned()).collect(),
+        None => diffs.iter().flat_map(|d| d.groups.iter().map(|g| (g.deleted.clone(), (0..g.added).map(|k| d.new_lines[g.t - 1 + k].clone()).collect::<Vec<_>>())).collect::<Vec<_>>()).collect(),
+    };
+    for (dels, adds) in &pair_groups {
+        {
+            for del in dels {
+                for new in adds {
+                    {
                     if !seen.insert((del.clone(), new.clone())) {
                         continue;
                     }
@@ -437,6 +475,7 @@ pub fn generate(rng: &mut Rng, idx: usize, _tier: Tier, with_globs: bool, rules:
                         similar::DiffOp::Replace { old_index, old_len, new_index, new_len } => format!("DReplace {old_index} {old_len} {new_index} {new_len}"),
                     }).collect();
                     cd.push(format!("({}, {}, [{}])", cstr(del), cstr(new), ops.join("; ")));
+                    }
                 }
             }
         }
@@ -458,10 +497,13 @@ pub fn generate(rng: &mut Rng, idx: usize, _tier: Tier, with_globs: bool, rules:
     }
     let mut fps = Vec::new();
     let mut jfps = Vec::new();
-    for d in &diffs {
-        let f = footprints(d);
-        jfps.push(json!({"file": d.path, "groups": f.iter().map(|x| json!([x.t, x.added, x.deleted, x.src])).collect::<Vec<_>>()}));
-        fps.push(format!("({}, [{}])", cstr(&d.path), f.iter().map(|x| format!("mkfp {} {} {} {}", x.t, x.added, x.deleted, x.src)).collect::<Vec<_>>().join("; ")));
+    let all_fps: Vec<(String, Vec<Footprint>)> = match &git_fps {
+        Some(fp) => fp.iter().map(|(p, f, _)| (p.clone(), f.clone())).collect(),
+        None => diffs.iter().map(|d| (d.path.clone(), footprints(d))).collect(),
+    };
+    for (path, f) in &all_fps {
+        jfps.push(json!({"file": path, "groups": f.iter().map(|x| json!([x.t, x.added, x.deleted, x.src])).collect::<Vec<_>>()}));
+        fps.push(format!("({}, [{}])", cstr(path), f.iter().map(|x| format!("mkfp {} {} {} {}", x.t, x.added, x.deleted, x.src)).collect::<Vec<_>>().join("; ")));
     }
     // relational oracle (independent of the model): content-rule diagnostics of this run = those of a
     // full scan of the same files, restricted to the blocks this run selected
